@@ -213,14 +213,14 @@ class Path:
     # -- branching by decision replay -------------------------------------
     def _feasible(self, cond) -> bool:
         self.n_branch_checks += 1
-        s = z3.Solver()
+        s = self._solver_synced()
         s.set("timeout", 2000)
-        for c in self.pc:
-            s.add(c)
-        for c in self._instances():
-            s.add(c)
-        s.add(cond)
-        r = s.check()
+        s.push()
+        try:
+            s.add(cond)
+            r = s.check()
+        finally:
+            s.pop()
         return r != z3.unsat
 
     def branch(self, cond) -> bool:
@@ -283,18 +283,41 @@ class Path:
 
     # -- obligations --------------------------------------------------------
     def _instances(self, extra_terms=()):
+        """ground instances of all universal facts on all index terms (memoised per (fact, terms))"""
+        cache = self.__dict__.setdefault("_inst_cache", {})
         out = []
         terms = list(self.idx_terms) + list(extra_terms)
-        for uf in self.ufacts:
+        for ui, uf in enumerate(self.ufacts):
             if uf.arity == 1:
                 combos = [(t,) for t in terms]
             else:
                 combos = itertools.product(terms, repeat=uf.arity)
             for c in combos:
-                inst = uf.instance(*c)
+                key = (ui,) + tuple(t.get_id() for t in c)
+                if key in cache:
+                    inst = cache[key]
+                else:
+                    inst = uf.instance(*c)
+                    cache[key] = inst
                 if inst is not None:
                     out.append(inst)
         return out
+
+    def _solver_synced(self):
+        """persistent incremental solver holding pc + instances on the permanent index terms"""
+        st = self.__dict__.setdefault("_inc", {"s": None, "npc": 0, "ninst": set()})
+        if st["s"] is None:
+            st["s"] = z3.Solver()
+        s = st["s"]
+        for c in self.pc[st["npc"]:]:
+            s.add(c)
+        st["npc"] = len(self.pc)
+        for inst in self._instances():
+            k = inst.get_id()
+            if k not in st["ninst"]:
+                st["ninst"].add(k)
+                s.add(inst)
+        return s
 
     def path_id(self):
         return "".join("T" if d else "F" for d in self.decisions) or "-"
@@ -340,11 +363,22 @@ class Path:
             # a second pass lets existential goals see index terms created by Skolemisation
             if _has_qany(goal):
                 f = self._goal_to_formula(goal)
-            hyps = list(self.pc) + self._instances()
+            n_perm = len(saved_terms)
+            perm_ids = set(i.get_id() for i in self._instances()) if False else None
+            extra = [i for i in self._instances()]
         finally:
             self.idx_terms = saved_terms
             self.idx_seen = saved_seen
-        res, backend, model = solve_valid(hyps, f, self.ex.timeout_ms)
+        s = self._solver_synced()
+        have = self._inc["ninst"]
+        s.push()
+        try:
+            for inst in extra:
+                if inst.get_id() not in have:
+                    s.add(inst)
+            res, backend, model = solve_valid_inc(s, f, self.ex.timeout_ms)
+        finally:
+            s.pop()
         ob.backend = backend
         if res == "valid":
             ob.status = "discharged"
@@ -358,12 +392,8 @@ class Path:
     def cover(self, name):
         """Vacuity guard: the path condition reaching this point must be satisfiable."""
         ob = Obligation(name=name, goal_desc="reachable (pc satisfiable)", kind="cover", path_id=self.path_id())
-        s = z3.Solver()
+        s = self._solver_synced()
         s.set("timeout", min(self.ex.timeout_ms, 3000))
-        for c in self.pc:
-            s.add(c)
-        for c in self._instances():
-            s.add(c)
         r = s.check()
         ob.backend = "z3"
         ob.status = "discharged" if r == z3.sat else ("failed" if r == z3.unsat else "unknown")
@@ -396,6 +426,29 @@ def _model_to_dict(m):
         except Exception:
             pass
     return out
+
+
+def solve_valid_inc(s, goal, timeout_ms):
+    """like solve_valid but on a prepared incremental solver (caller does push/pop)"""
+    s.set("timeout", timeout_ms)
+    s.add(z3.Not(goal))
+    r = s.check()
+    if r == z3.unsat:
+        return "valid", "z3", None
+    if r == z3.sat:
+        m = s.model()
+        md = _model_to_dict(m)
+        ms = "; ".join(f"{k}={v}" for k, v in sorted(md.items()) if len(v) < 80)[:2000]
+        return "invalid", "z3", (ms, md)
+    try:
+        r2 = _cvc5_check(s.to_smt2(), timeout_ms)
+    except Exception:
+        r2 = "unknown"
+    if r2 == "unsat":
+        return "valid", "cvc5", None
+    if r2 == "sat":
+        return "invalid", "cvc5", ("(cvc5 sat; no model extracted)", {})
+    return "unknown", "z3+cvc5", None
 
 
 def solve_valid(hyps, goal, timeout_ms):
